@@ -78,6 +78,19 @@ def HS.consume (s : HS) (n : Nat) : HS := { s with rb := s.rb + n, rbSize := s.r
 
 /-! ### end of the header section: sizes and the shift-back block -/
 
+/-- `last_elmnt_end`: "the position of the terminating NUL after the last character of the
+    last header element" — the value end of the list tail **if it is a field line**, else the
+    end of the HTTP version string (the repaired code) -/
+def lastElemEnd (s : HS) : Nat :=
+  match s.elems.getLast? with
+  | some e =>
+    if e.kind == Http.kindHeader then
+      match e.value with
+      | some v => v.off + v.len
+      | none => s.version + Discipline.httpVerLen   -- unreachable: field lines always have a value
+    else s.version + Discipline.httpVerLen
+  | none => s.version + Discipline.httpVerLen
+
 /-- the block after the `do … while` loop of `get_req_headers` (headers, not footers);
     `s` has already consumed the empty line; `fieldStart` = `rq.field_lines.start` -/
 def finishHeaders (s : HS) (fieldStart : Nat) : Step HS HDone :=
@@ -90,15 +103,7 @@ def finishHeaders (s : HS) (fieldStart : Nat) : Step HS HDone :=
     let fieldLinesSize := if b2 == cCR then fl0 - 1 else fl0
     if Discipline.bufIncSize > s.rbSize then
       -- "Try to re-use some of the last bytes of the request header"
-      let lastEnd : Nat :=
-        match s.elems.getLast? with
-        | some e =>
-          if e.kind == Http.kindHeader then
-            match e.value with
-            | some v => v.off + v.len
-            | none => s.version + Discipline.httpVerLen   -- unreachable: field lines always have a value
-          else s.version + Discipline.httpVerLen
-        | none => s.version + Discipline.httpVerLen
+      let lastEnd : Nat := lastElemEnd s
       if lastEnd + 1 > s.rb then .fault (.write 71 (lastEnd + 1))
       else
         let shift := s.rb - (lastEnd + 1)
